@@ -361,19 +361,14 @@ pub fn run_with_trace(
     // prepare_args
     let mut user_args: Vec<Vec<Arg>> = vec![];
     if requires_gas_builtin(b, func) {
-        let gas = match available_gas {
-            None => 0,
-            Some(g) => match initial_required_gas(b, func) {
-                None => 0,
-                Some(req) => match g.checked_sub(req) {
-                    Some(x) => x,
-                    None => {
-                        out.kind = "refused".into();
-                        out.events.push(json!({"e":"refused"}));
-                        return out;
-                    }
-                },
-            },
+        // the runner's own computation of the initial counter (deducts the declared entry cost, or refuses)
+        let gas = match runner.get_initial_available_gas(func, available_gas) {
+            Ok(g) => g,
+            Err(_) => {
+                out.kind = "refused".into();
+                out.events.push(json!({"e":"refused"}));
+                return out;
+            }
         };
         user_args.push(vec![Arg::Value(Felt252::from(gas))]);
     }
